@@ -90,11 +90,19 @@ def gen_case(rng, tier):
             'lines': lines}
     if rng.random() < 0.15:
         case['file_at'] = rng.randrange(1, len(lines) + 1)
+    if rng.random() < 0.2:
+        # debug logging switched on by the application: every log record is really formatted
+        case['debug_log'] = True
     return case
 
 
 def run_impl(case):
     core.import_searchkit()
+    with core.debug_logging(case.get('debug_log', False)):
+        return run_impl_(case)
+
+
+def run_impl_(case):
     from searchkit.constraints import SearchConstraintSearchSince, CouldNotApplyConstraint
     from vh import matchers
     c = SearchConstraintSearchSince(current_date=case['cur'],
